@@ -43,3 +43,11 @@ def gentrip_run(nq=150, nt=300, sq=4, st=8, focus=None):
     for k in ("env_quick", "env_thorough"):
         r[k]["VERIF_GENTRIP"] = "1"
     return r
+
+
+def govpool_run(nq=150, nt=300, sq=4, st=8, focus=None):
+    """history mode in which governance now and then rewrites one amm pool's parameters (oracle switch, swap fee) between two blocks"""
+    r = hist_run(nq, nt, sq, st, focus=focus)
+    for k in ("env_quick", "env_thorough"):
+        r[k]["VERIF_GOVPOOL"] = "1"
+    return r
